@@ -34,9 +34,7 @@ def generate(tier, rng, hist):
             paths.append(list(combo))
     for b in paths:
         for t in paths:
-            for (absb, abst, sep) in ((True, True, "/"), (False, False, "/"), (True, False, "\\")):
-                if tier == "quick" and (len(b) + len(t) >= 5) and rng.chance(0.6):
-                    continue
+            for (absb, abst, sep) in ((True, True, "/"), (False, False, "/"), (True, False, "\\"), (False, True, "/"), (True, True, "\\")):
                 bs = ("/" if absb else "") + sep.join(b)
                 ts_ = ("/" if abst else "") + sep.join(t)
                 out.append("relpath %s %s" % (hx(bs), hx(ts_)))
